@@ -1,3 +1,4 @@
+import PncModel.Generated.BpchHeaders
 import PncModel.Bpch
 import PncProofs.WordsLemmas
 import Mathlib.Tactic.Linarith
@@ -172,5 +173,16 @@ theorem resolve_unlisted (ts : List TInfo) (ds : List DInfo) (cat : String) (tid
   unfold resolve
   simp only [ht]
   cases ts.find? (fun t => t.id == tid) <;> simp
+
+/-- **tie to the source** (regenerated from `_datablock_header_type` of geoschemfiles/_bpch.py on every run): the word
+offsets at which the model reads category, tracer number, unit, tau0, tau1, dimensions, start and skip in the second
+header record of a data block are those of the source's record type -/
+theorem header_layout_matches_source :
+    Generated.bpchHdr2 = some [0, 10, 11, 21, 23, 25, 35, 38, 41, 42] ∧ Generated.bpchHdr1 = some [0, 5, 7, 8, 9] ∧
+    Generated.bpchFileHeaderBytes = some 136 ∧
+    ∀ b : Block, b.category = b.hdr2.take 10 ∧ b.tracerid = b.hdr2.getD 10 0 ∧ b.unit = (b.hdr2.drop 11).take 10 ∧
+      b.tau0 = (b.hdr2.drop 21).take 2 ∧ b.tau1 = (b.hdr2.drop 23).take 2 ∧ b.dims = (b.hdr2.drop 35).take 3 ∧
+      b.start = (b.hdr2.drop 38).take 3 ∧ b.skip = b.hdr2.getD 41 0 := by
+  refine ⟨by decide, by decide, by decide, fun b => ⟨rfl, rfl, rfl, rfl, rfl, rfl, rfl, rfl⟩⟩
 
 end Props.C18
